@@ -15,12 +15,15 @@ VERIF = os.path.dirname(os.path.dirname(os.path.abspath(__file__)))
 PROPS = ["C%02d" % i for i in range(1, 21)]
 
 
+REPO = os.environ.get("VERIF_REPO", "/repo")      # a scratch clone when run in the background (vp run --with-repo)
+
+
 def sh(cmd, **kw):
     return subprocess.run(cmd, shell=True, capture_output=True, text=True, **kw)
 
 
 def restore():
-    sh("git -C /repo checkout -- . ; git -C /repo clean -fdq internal cmd")
+    sh("git -C %s checkout -- . ; git -C %s clean -fdq internal cmd" % (REPO, REPO))
 
 
 def run_check(prop, tier):
@@ -50,17 +53,17 @@ def main():
     names = sorted(os.path.basename(os.path.dirname(p)) for p in glob.glob(os.path.join(VERIF, "seeded/*/patch.diff")))
     if "--seeds" in args:
         names = [n for n in names if n in args[args.index("--seeds") + 1:]]
-    if sh("git -C /repo diff --quiet").returncode != 0:
+    if sh("git -C %s diff --quiet" % REPO).returncode != 0:
         sys.exit("refusing: /repo has uncommitted changes")
     res_path = os.path.join(VERIF, "seeded/RESULTS.json")
     results = json.load(open(res_path)) if os.path.exists(res_path) else {}
-    head = sh("git -C /repo rev-parse --short HEAD").stdout.strip()
+    head = sh("git -C %s rev-parse --short HEAD" % REPO).stdout.strip()
     try:
         for n in names:
             patch = os.path.join(VERIF, "seeded", n, "patch.diff")
             meta = json.load(open(os.path.join(VERIF, "seeded", n, "meta.json")))
             own = meta["property"]
-            if sh("git -C /repo apply %s" % patch).returncode != 0:
+            if sh("git -C %s apply %s" % (REPO, patch)).returncode != 0:
                 results[n] = {"error": "patch does not apply to /repo HEAD %s" % head}
                 continue
             try:
